@@ -42,3 +42,8 @@ void drv_resume_chain_lk(suspend_point<void> *out, awaiter *c) { new(out) suspen
 bool drv_subscribe_check_ready(awaiter *a, awaiter_collector *c, awaiter *r) { return a->subscribe_check_ready(*c, *r); }
 void drv_sync_wakeup(sync_awaiter *a) { a->wakeup(); }
 }
+// has_value() waiters: awaitable_bool::await_ready / operator bool
+extern "C" {
+bool drv_ab_ready(future<int>::awaitable_bool *a) { return a->await_ready(); }
+bool drv_ab_bool(const future<int>::awaitable_bool *a) { return (bool)*a; }
+}
